@@ -34,6 +34,21 @@ def _differs(a, b, tol=1e-12):
             msgs.append('far field differs by %.3g dB' % np.abs(a['gain'][msk] - b['gain'][msk]).max())
     return msgs
 
+def _resrc(rng, m, spec):
+    """replace the sources of the live object by new ones on other pulses; spec follows"""
+    from mininec.mininec import Excitation
+    n = len(m.pulses)
+    old = [s_['pulse'] for s_ in spec['sources']]
+    cand = [i for i in range(n) if i not in old] or list(range(n))
+    new = []
+    for i in rng.sample(cand, min(len(cand), rng.choice([1, 1, 2]))):
+        v = complex(rng.uniform(0.5, 3), rng.choice([0.0, rng.uniform(-2, 2)]))
+        new.append(dict(pulse=i, tag=None, v=[v.real, v.imag]))
+    m.sources = []
+    for s_ in new:
+        m.register_source(Excitation(complex(*s_['v'])), s_['pulse'])
+    spec['sources'] = new
+
 def run(payload):
     from mininec.mininec import Angle
     out = []
@@ -50,7 +65,7 @@ def run(payload):
             bad = []
             computed = False
             for k in range(nops):
-                op = rng.choice(['setf', 'setf', 'compute', 'far', 'near', 'compute2'])
+                op = rng.choice(['setf', 'setf', 'compute', 'far', 'near', 'compute2', 'resrc'])
                 if op == 'setf':
                     fk = f0 * rng.choice([0.5, 0.8, 1.0, 1.25, 2.0, rng.uniform(0.3, 3)])
                     m.f = fk; computed = False
@@ -60,13 +75,25 @@ def run(payload):
                     if op == 'compute2':
                         m.compute()
                     ops.append([op])
+                elif op == 'resrc':
+                    # the sources are replaced on the live object (the idiom of the package's own doctests)
+                    _resrc(rng, m, spec); computed = False
+                    ops.append(['resrc', [s_['pulse'] for s_ in spec['sources']]])
                 elif op == 'far' and computed:
                     m.compute_far_field(Angle(0, 30, 3), Angle(0, 90, 2)); ops.append(['far'])
                 elif op == 'near' and computed:
                     lam = 299.8 / m.f
                     m.compute_near_field([lam, lam, lam], [lam / 10, 0.1, 0.1], [2, 1, 1]); ops.append(['near'])
             F = f0 * rng.choice([1.0, 0.7, 1.9, rng.uniform(0.4, 2.5)])
-            m.f = F; m.compute(); ops += [['setf', F], ['compute']]
+            last = rng.choice(['setf-compute', 'setf-compute', 'compute-again', 'resrc-compute'])
+            if last == 'setf-compute':
+                m.f = F; m.compute(); ops += [['setf', F], ['compute']]
+            elif last == 'compute-again':
+                # the last computation repeats one at the same frequency, with nothing changed in between
+                F = float(m.f); m.compute(); m.compute(); ops += [['compute'], ['compute']]
+            else:
+                F = float(m.f); m.compute(); _resrc(rng, m, spec); m.compute()
+                ops += [['compute'], ['resrc', [s_['pulse'] for s_ in spec['sources']]], ['compute']]
             order = rng.choice(['far-first', 'near-first'])
             lam = 299.8 / F
             if order == 'near-first':
